@@ -271,7 +271,14 @@ def harness_build(meta, wd):
     for k, v in meta.get("build_env", {}).items():
         env[k] = v
     t0 = time.time()
-    rc, out = run(["go", "build", "-tags", tags, "-o", out_bin, "./" + name], cwd=HARNESS, env=env, timeout=1500)
+    modargs = []
+    if os.path.abspath(REPO) != "/repo":
+        # scratch worktree: same harness sources, replace directives redirected through -modfile
+        modf = os.path.join(wd, "go.alt.mod")
+        open(modf, "w").write(open(os.path.join(HARNESS, "go.mod")).read().replace("=> /repo", "=> " + os.path.abspath(REPO)))
+        shutil.copy(dst, os.path.join(wd, "go.alt.sum"))
+        modargs = ["-modfile=" + modf]
+    rc, out = run(["go", "build"] + modargs + ["-tags", tags, "-o", out_bin, "./" + name], cwd=HARNESS, env=env, timeout=1500)
     log("harness build %.1fs rc=%d" % (time.time() - t0, rc))
     if rc != 0:
         return None, out
@@ -359,9 +366,15 @@ def eval_cases(pid, meta, cases, wd, tag="c"):
 # ---------------------------------------------------------------- known findings
 
 def load_known(pid):
-    if not os.path.exists(KNOWN):
-        return []
-    return [e for e in json.load(open(KNOWN)).get("findings", []) if e.get("property") == pid]
+    out, seen = [], set()
+    for f in (KNOWN, os.path.join(COQ, pid, "findings.json")):
+        if not os.path.exists(f):
+            continue
+        for e in json.load(open(f)).get("findings", []):
+            if e.get("property") == pid and e.get("id") not in seen:
+                seen.add(e.get("id"))
+                out.append(e)
+    return out
 
 
 def match_known(entries, case):
@@ -564,8 +577,9 @@ def check(pid, tier, seed, a, wd, t0):
             print("VIOLATION property=%s replay=%s no-failing-input-found" % (pid, rp))
         rc = 1
 
-    write_evidence(pid, tier, seed, meta, t0, obligations, discharged, cases, corr_fail, holds_fail,
-                   1 if rc else 0, axioms_used, coqchk_out, notes, {k: v[0]["fails"] for k, v in reported_known.items()})
+    if not a.replay:
+        write_evidence(pid, tier, seed, meta, t0, obligations, discharged, cases, corr_fail, holds_fail,
+                       1 if rc else 0, axioms_used, coqchk_out, notes, {k: v[0]["fails"] for k, v in reported_known.items()})
     return rc
 
 
